@@ -519,6 +519,17 @@ class WeightedHooks(GslHooks):
         return m
 
 
+def weighted_with_self(ra, d):
+    """the non-aliased result with the weight components y_k replaced by the vector's own components a_k"""
+    m = {('v', 'y%d' % k): Poly.var('a%d' % k) for k in range(d * d)}
+    out = []
+    for x in ra:
+        if not isinstance(x, Poly):
+            raise Unsupported('guarded reference')
+        out.append(x.subst(m))
+    return out
+
+
 def check_weighted(db, rep):
     """both overloads, interpreted in dimensions 2 and 3, must leave the same components in *this when
     RotateToB0(p) ~ UDaggerTransform(p) and RotateToB1(p) ~ UTransform(p) denote the same linear maps"""
@@ -560,6 +571,40 @@ def check_weighted(db, rep):
         if results is None:
             continue
         (ra, appa), (rb, appb) = results
+        # the weight vector may be the vector being transformed itself (x.WeightedRotation(V, x, W)): the result must be
+        # what the formula gives with Yd = the ORIGINAL vector, for both overloads
+        for f in (fa, fb):
+            this, reg = make_suv('self', d, 'a')
+            if f is fa:
+                a0 = Cell(Obj('squids::Const', None, 'V'), None, 0, 'V')
+                a2 = Cell(Obj('squids::Const', None, 'W'), None, 0, 'W')
+                hooks = WeightedHooks({id(a0.value): 'arg0', id(a2.value): 'arg2'})
+                args = [a0, this, a2]
+            else:
+                hooks = WeightedHooks({})
+                m0 = hooks.new_matrix(d, d, 'V')
+                m2 = hooks.new_matrix(d, d, 'W')
+                hooks.roles = {id(m0.region): 'arg0', id(m2.region): 'arg2'}
+                args = [m0.ptr, this, m2.ptr]
+            try:
+                Interp(unit, hooks).call(f, this, args)
+            except Thrown as t:
+                rep.fail('D.weighted', 'WeightedRotation/%d/aliased' % d, unit.loc(t.node), 'a transformed vector', 'throw: %s' % t.what, f['name'])
+                continue
+            p = this.value.fields['components'].value
+            got = [p.region.cell(p.off + k).value for k in range(d * d)]
+            try:
+                want = weighted_with_self(ra, d)
+            except Unsupported:
+                want = None
+            if want is None:
+                rep.notes.append('WeightedRotation with Yd aliasing the vector: reference not expressible, not judged')
+            elif all(isinstance(x, Poly) and x.equals(y) for x, y in zip(got, want)):
+                rep.ok('D.weighted')
+            else:
+                k = next(i for i, (x, y) in enumerate(zip(got, want)) if not (isinstance(x, Poly) and x.equals(y)))
+                rep.fail('D.weighted', 'WeightedRotation/%d/aliased/%s' % (d, 'Const' if f is fa else 'matrix'), unit.loc(f),
+                         'x.WeightedRotation(V, x, W) uses the original x as weight', 'component %d is %s instead of %s' % (k, str(got[k])[:160], str(want[k])[:160]), f['name'])
         same = all(isinstance(x, Poly) and isinstance(y, Poly) and x.equals(y) for x, y in zip(ra, rb))
         want_seq = [('B0', 'arg0'), ('B1', 'arg2')]
         if same and appa == want_seq and appb == want_seq:
